@@ -259,10 +259,12 @@ def _work(unit):
     groups = {}  # (clause, wire, coarse) -> [count, first failure]
     order = []
     ill = None
+    n_ill = 0
     sample = None
     for spec in gen.expand(unit):
         if not gen.valid(spec):
             ill = ill or [gen.to_json(spec), gen.well_formed(spec[2])]
+            n_ill += 1
             continue
         n += 1
         if sample is None:
@@ -284,7 +286,7 @@ def _work(unit):
                     g[0] += 1
     return {
         "unit": unit, "n": n, "nontrivial": nontriv, "digests": b"".join(digs), "outcomes": outcomes,
-        "groups": [(k, groups[k]) for k in order], "stats": st, "ill": ill,
+        "groups": [(k, groups[k]) for k in order], "stats": st, "ill": ill, "n_ill": n_ill,
         "sample": gen.to_json(sample) if sample is not None else None,
     }
 
@@ -319,9 +321,13 @@ def explore(ctx, units, work):
     seen = set()
     tot = {"n": 0, "nontrivial": 0, "encode_calls": 0, "decode_calls": 0, "evaluations": 0}
     fam_counts = {}
+    n_ill = 0
+    first_ill = None
     for r in res:
         if r["ill"]:
-            raise HarnessError(f"generator produced an ill-formed message in unit {r['unit']}: {r['ill']}")
+            # a template that is not well formed w.r.t. the (possibly changed) table is dropped, never judged
+            n_ill += r["n_ill"]
+            first_ill = first_ill or (r["unit"], r["ill"])
         tot["n"] += r["n"]
         tot["nontrivial"] += r["nontrivial"]
         for k, v in r["stats"].items():
@@ -338,6 +344,12 @@ def explore(ctx, units, work):
                 order.append(k)
             else:
                 g[0] += cnt
+    tot["dropped_ill_formed"] = n_ill
+    if n_ill * 100 > max(1, tot["n"]):
+        raise HarnessError(f"generator produced {n_ill} ill-formed messages, first in unit {first_ill[0]}: {first_ill[1]}")
+    if n_ill:
+        ctx.notes.append(f"{n_ill} generated messages were not well formed w.r.t. the table and were dropped "
+                         f"(first: unit {first_ill[0]})")
     tot["states"] = len(seen)
     tot["families"] = fam_counts
     tot["samples"] = [r["sample"] for r in res if r["sample"] is not None]
